@@ -177,3 +177,5 @@ func errStr(err error) string {
 	}
 	return err.Error()
 }
+
+func planOf(l *hist.Layout, p hist.Pos) []sim.PlanPkt { return sim.Plan(l, p) }
